@@ -1,4 +1,5 @@
 //! vf_hydro_sim1 — engine F (part 1): C36, C37, C38 over the repo's simulator.
+#![allow(dead_code)]
 mod c36;
 mod c37;
 mod c38;
